@@ -69,10 +69,13 @@ def spec(tier, seed):
             insts.append(inst(3, p))
         for p in prefixes(4, 2):
             insts.append(inst(4, p))
+    from . import _mir
     return {
+        "mir_vcs": [{"name": "parallel::apply_patches: every file patch taken from a patch is handed to FilenameDistributor::add before the next one / before build()", "function": "parallel::apply_patches", "target": "bin",
+                     "run": lambda f, v, w: _mir.vc_every_file_patch_registered(f, v, w)}],
         "instances": insts,
         "level": "model_checking",
-        "functions": ["FilenameDistributor::<u8>::new", "FilenameDistributor::add", "FilenameDistributor::build"],
+        "functions": ["FilenameDistributor::<u8>::new", "FilenameDistributor::add", "FilenameDistributor::build", "parallel::apply_patches (MIR: the loop feeding the distributor)"],
         "symbolic": "the last add call (both names, rename or not) and thread_count in [1,16]; the prefix of earlier calls is enumerated up to renaming symmetry",
         "bounds": {"names": "3 (quick), 3-4 (thorough)", "calls": "3 (quick), up to 4 (thorough)", "instantiation": "T = u8"},
         "assumptions": [
@@ -83,3 +86,8 @@ def spec(tier, seed):
         "outside": ["more than 4 names / 4 calls", "the set of files each worker actually loads (I/O)"],
         "explanation": "for every concrete prefix of add calls (up to renaming) the solver decides the last call and the thread count: names related in a reference union-find get one worker id, every id < thread_count",
     }
+
+
+def replay_candidate(v, work, log):
+    from .. import scenarios
+    return scenarios.replay_for("C07", v, work, log)
